@@ -35,13 +35,12 @@ def used_pairs(spec):
     jds = netsim.spec_jds(spec)
     out = [set() for _ in spec["topos"]]
     for m in spec["motifs"]:
-        i = m["topo"]
-        t = spec["topos"][i]
-        for u, v in netsim.motif_edges(t["kind"], m["verts"]):
-            a = list(jds[u]); a[i] -= 1
-            b = list(jds[v]); b[i] -= 1
-            out[i].add((tuple(a), tuple(b)))
-            out[i].add((tuple(b), tuple(a)))
+        for i, t, pv in netsim.parts(spec, m):
+            for u, v in netsim.motif_edges(t["kind"], pv):
+                a = list(jds[u]); a[i] -= 1
+                b = list(jds[v]); b[i] -= 1
+                out[i].add((tuple(a), tuple(b)))
+                out[i].add((tuple(b), tuple(a)))
     return out
 
 
@@ -103,6 +102,9 @@ def gen_scenario(prng, tier, index, focus):
     if prng.random() < 0.25:
         pool = [t for t in pool if t["size"] == 2]          # all 2-cliques: the motif-id defect is invisible
     topos = [dict(t) for t in prng.sample(pool, min(ntop, len(pool)))]
+    if prng.random() < 0.3:
+        # a motif type whose edges carry two topology names under one motif id (corners with edges of several topologies)
+        topos = netsim.add_composite(prng, topos)
     if all(t["size"] == 2 for t in topos):
         n = prng.randrange(6, 41 if big else 17)        # single edges swap freely even on tiny networks
     else:
@@ -119,7 +121,7 @@ def gen_scenario(prng, tier, index, focus):
     else:
         spec = netsim.gen_clean_spec(prng, n, topos, max(4, int(n * mult)))
     if prng.random() < 0.25:
-        spec["jd_type"] = "list"
+        spec["jd_type"] = prng.choice(("list", "mixed2", "mixed3"))
     if prng.random() < 0.2:
         spec["extra_attrs"] = [prng.choice(interesting.ATTR_NAMES[:12]), prng.choice(("int", "float", "str"))]
     variant = "faults" if index % 4 == 3 else "clean"
